@@ -23,6 +23,8 @@ STANDINS = """
 use vstd::std_specs::char::is_white_space;
 #[verifier::external_type_specification]
 pub struct ExIpAddr(std::net::IpAddr);
+// std: IpAddr::to_canonical may turn an IPv4-mapped IPv6 address into an IPv4 one: no postcondition (any address may come back)
+pub assume_specification [std::net::IpAddr::to_canonical] (a: &std::net::IpAddr) -> (r: std::net::IpAddr);
 pub broadcast axiom fn axiom_dn_key_model() ensures #[trigger] obeys_key_model::<DomainName>();
 pub open spec fn ascii(c: char) -> bool { (c as u32) <= 127 }
 pub assume_specification [char::is_ascii] (c: &char) -> (r: bool) ensures r == ascii(*c);
